@@ -99,6 +99,21 @@ impl Store {
         std::fs::read(self.log_path()).unwrap_or_default()
     }
 
+    /// Like `log_bytes`, but when the file does not end with a newline it is re-read for up to a second: a
+    /// reader has no atomicity guarantee against a write(2) in progress, and only an unterminated tail that
+    /// persists says something about the writer.
+    pub fn log_bytes_settled(&self) -> Vec<u8> {
+        let mut b = self.log_bytes();
+        for _ in 0..40 {
+            if b.is_empty() || b.last() == Some(&b'\n') {
+                break;
+            }
+            std::thread::sleep(std::time::Duration::from_millis(25));
+            b = self.log_bytes();
+        }
+        b
+    }
+
     pub fn streams_dir(&self) -> PathBuf {
         self.data.join("continuity_streams")
     }
